@@ -203,84 +203,102 @@ def _subst_local(x, a, b):
     return x
 
 
+def _path_to_switch(f, start):
+    """blocks from `start` along goto / drop edges up to and including the first switch (None if
+    anything else is met, or after 12 blocks)"""
+    out, cur = [], start
+    while len(out) <= 12:
+        out.append(cur)
+        t = f.blocks[cur]['term']
+        if t['k'] == 'switch':
+            return out
+        if t['k'] == 'goto':
+            cur = t['to']
+        elif t['k'] == 'drop' and t.get('ret') is not None:
+            cur = t['ret']
+        else:
+            return None
+    return None
+
+
 def thread_bool_results(f):
-    """For a bool local R assigned on several paths that merge in a chain of statement-only blocks
-    ending in a switch (the shape left by inlining `a || b` / `if .. {true} else {expr}`), duplicate
-    the chain per assigning predecessor with R renamed to a fresh single-assignment local. Returns
-    the number of chains specialised."""
+    """Tail duplication for a bool local R that an inlined helper assigns on several return paths
+    which merge (possibly in stages, through drop / goto blocks) before the caller tests it: the
+    blocks between each assignment and the test are cloned per assignment, with R and the locals
+    defined on the way renamed to fresh single-assignment locals. Path conditions then see the
+    helper's own condition (or a constant, folded by fold_const_switches) instead of a merged
+    variable. Applied only if the cloned blocks contain no call and the renamed locals are not used
+    anywhere else. Returns the number of variables specialised."""
     n = 0
+    done_locals = set()
     for _ in range(8):
-        preds = {}
-        for i, b in enumerate(f.blocks):
-            t = b['term']
-            outs = []
-            if t['k'] == 'goto':
-                outs = [t['to']]
-            elif t['k'] == 'switch':
-                outs = [x for _, x in t['targets']] + [t['otherwise']]
-            elif t.get('ret') is not None:
-                outs = [t['ret']]
-            for o in outs:
-                preds.setdefault(o, []).append(i)
         whole = {}
         for i, b in enumerate(f.blocks):
-            for st in b['stmts']:
+            for si, st in enumerate(b['stmts']):
                 if not st['dst']['p']:
-                    whole.setdefault(st['dst']['l'], []).append(i)
-        done = False
-        for R, dbs in whole.items():
-            if len(dbs) < 2 or len(set(dbs)) != len(dbs) or R <= f.argc:
+                    whole.setdefault(st['dst']['l'], []).append((i, si))
+        progress = False
+        for R, defs_ in whole.items():
+            if R in done_locals or len(defs_) < 2 or R <= f.argc:
                 continue
             if f.locals[R]['ty']['s'] != 'bool' or not f.locals[R].get('inlined_from'):
                 continue
-            # every def block ends in a goto to the same join block
-            if not all(f.blocks[d]['term']['k'] == 'goto' and f.blocks[d]['stmts'] and f.blocks[d]['stmts'][-1]['dst'] == {'l': R, 'p': []} for d in dbs):
+            dbs = [d for d, _ in defs_]
+            if len(set(dbs)) != len(dbs) or any(f.blocks[d].get('cleanup') for d in dbs):
                 continue
-            js = {f.blocks[d]['term']['to'] for d in dbs}
-            if len(js) != 1:
-                continue
-            j = js.pop()
-            if sorted(preds.get(j, [])) != sorted(dbs):
-                continue
-            # the chain: statement-only blocks linked by goto, ending in a switch
-            chain, cur = [], j
-            while len(chain) < 4:
-                chain.append(cur)
-                t = f.blocks[cur]['term']
-                if t['k'] == 'switch':
+            paths, ok = {}, True
+            for d, si in defs_:
+                b = f.blocks[d]
+                t = b['term']
+                nxt = t.get('to') if t['k'] == 'goto' else (t.get('ret') if t['k'] == 'drop' else None)
+                # R must not be read or rewritten after its definition inside the defining block
+                if nxt is None or any(_uses_local(st, R) for st in b['stmts'][si + 1:]):
+                    ok = False
                     break
-                if t['k'] != 'goto' or (len(preds.get(t['to'], [])) != 1):
-                    chain = None
+                pth = _path_to_switch(f, nxt)
+                if pth is None or any(x in dbs for x in pth):
+                    ok = False
                     break
-                cur = t['to']
-            if not chain or f.blocks[chain[-1]]['term']['k'] != 'switch':
+                paths[d] = pth
+            if not ok or len({p_[-1] for p_ in paths.values()}) != 1:
                 continue
-            # locals defined inside the chain are renamed per copy as well; they (and R) must not be
-            # used anywhere else, or the renaming would change what later code reads
-            inner = sorted({st['dst']['l'] for c in chain for st in f.blocks[c]['stmts'] if not st['dst']['p']})
-            elsewhere = [b for i, b in enumerate(f.blocks) if i not in chain and i not in dbs]
+            region = sorted({x for p_ in paths.values() for x in p_})
+            inner = sorted({st['dst']['l'] for c in region for st in f.blocks[c]['stmts'] if not st['dst']['p']})
+            elsewhere = [b for i, b in enumerate(f.blocks) if i not in region and i not in dbs]
             if any(_uses_local(b, l) for b in elsewhere for l in [R] + inner):
                 continue
-            for d in dbs[1:]:
+            if not any(_uses_local(f.blocks[c], R) for c in region):
+                continue
+            for d, si in defs_:
                 ren = {}
                 for l in [R] + inner:
                     f.locals.append(copy.deepcopy(f.locals[l]))
                     ren[l] = len(f.locals) - 1
                 base = len(f.blocks)
-                for k, c in enumerate(chain):
+                pth = paths[d]
+                for k, c in enumerate(pth):
                     nb = copy.deepcopy(f.blocks[c])
                     for a, b_ in ren.items():
-                        nb = {**_subst_local({kk: vv for kk, vv in nb.items()}, a, b_)}
-                    if nb['term']['k'] == 'goto':
-                        nb['term']['to'] = base + k + 1
+                        nb = _subst_local(nb, a, b_)
+                    t = nb['term']
+                    if k + 1 < len(pth):
+                        if t['k'] == 'goto':
+                            t['to'] = base + k + 1
+                        else:
+                            t['ret'] = base + k + 1
+                    nb['threaded_copy_of'] = c
                     f.blocks.append(nb)
                 db = f.blocks[d]
-                db['stmts'][-1] = _subst_local(db['stmts'][-1], R, ren[R])
-                db['term']['to'] = base
+                db['stmts'][si] = _subst_local(db['stmts'][si], R, ren[R])
+                if db['term']['k'] == 'goto':
+                    db['term']['to'] = base
+                else:
+                    db['term']['ret'] = base
+            done_locals.add(R)
             n += 1
-            done = True
+            progress = True
             break
-        if not done:
+        if not progress:
             break
     return n
 
